@@ -1,0 +1,19 @@
+//go:build verif
+
+// Contracts for the deductive verification in /verif (govc). Comment-only.
+// Cassandra's LZ4 framing: [int] uncompressed length (big endian), then the LZ4 block.
+// The block codec (github.com/pierrec/lz4/v4) is external: assumed contracts in
+// /verif/govc/lib.go (CompressBlockBound(n) >= n; (Un)CompressBlock write a prefix of
+// dst and return its length, 0 on error).
+
+package lz4
+
+//@ func (s LZ4Compressor) Encode
+//@   props C18
+//@   ensures result1 == nil ==> len(result0) >= 4 && be32(result0, 0) == uint32(len(data))
+
+//@ func (s LZ4Compressor) Decode
+//@   props C18 C05
+//@   ensures len(data) < 4 ==> result1 != nil
+//@   ensures len(data) >= 4 && be32(data, 0) == 0 ==> result1 == nil && len(result0) == 0
+//@   ensures len(data) >= 4 ==> len(result0) <= int(be32(data, 0))
